@@ -176,8 +176,11 @@ class Auer(PALAlgorithm):
                     to_be_discarded.append(pt)
                     break
 
+        # beta_t has one row per member of S in iteration order; keep it aligned with S.
+        kept_rows = [pt not in to_be_discarded for pt in self.S]
         for pt in to_be_discarded:
             self.S.remove(pt)
+        self.beta_t = self.beta_t[kept_rows]
 
     def pareto_updating(self):
         """
